@@ -134,6 +134,12 @@ class _System:
         # stand-alone monitors on the first neuron group
         self.monitors = []
         for mk in cfg["monitors"]:
+            if mk in ("v_pass", "v_ema", "v_ca"):
+                # undelayed reducers fed the neuron's own persistent float state (their first fold returns the observation itself)
+                red = {"v_pass": lambda: observe.PassthroughReducer(dt, duration=0.0, inplace=inplace), "v_ema": lambda: observe.EMAReducer(dt, 0.3, duration=0.0, inplace=inplace),
+                       "v_ca": lambda: observe.CAReducer(dt, duration=0.0, inplace=inplace)}[mk]()
+                self.monitors.append(observe.StateMonitor(red, "voltage", self.neurons[0]))
+                continue
             if mk == "ema":
                 red = observe.EMAReducer(dt, 0.3, duration=2 * dt, inplace=inplace)
             elif mk == "ca":
@@ -251,7 +257,7 @@ def _dig(v):
 class CheckpointWorld(World):
     name = "checkpoint_world"
     real = ["state_dict / load_state_dict / get_extra_state / set_extra_state of inferno.Module", "RecordTensor data + pointer extras", "layers, connections, synapses, neurons",
-            "trainers with their monitor pools and reducers", "stand-alone OutputMonitors with EMA/CA/Event/trace reducers", "MaxRateClassifier (post-load hook)", "torch.save / torch.load through an in-memory byte buffer (the 'disk')"]
+            "trainers with their monitor pools and reducers", "stand-alone OutputMonitors with EMA/CA/Event/trace reducers and StateMonitors on the neuron voltage with undelayed pass-through/EMA/CA reducers", "MaxRateClassifier (post-load hook)", "torch.save / torch.load through an in-memory byte buffer (the 'disk')"]
     stub = []
     state_measure = "distinct (layer kind, connection kinds, neuron kinds, trainer, monitors, classifier, inplace, crash point k, target kind)"
     rule = ("each run = one swarm-composed system (layer x connections x synapses x neurons x optional trainer x stand-alone monitors x classifier) driven for T steps; "
@@ -264,7 +270,7 @@ class CheckpointWorld(World):
         cfg = {"kind": kind, "dt": rc.choice(DTS), "B": rc.choice([1, 1, 2]), "wseed": rc.randrange(1 << 30), "inplace": rc.random() < 0.5,
                "width": rc.choice([2, 3]), "nin": rc.choice([2, 3]), "trace": rc.choice(["cumulative", "nearest"]), "tdelayed": rc.random() < 0.5,
                "combine": rc.choice(["sum", "mean", "max"]), "lateral": rc.random() < 0.5,
-               "monitors": rc.choice([[], [], ["ema"], ["ca"], ["event"], ["trace", "ema"]]), "classifier": rc.random() < 0.3, "container": rc.random() < 0.5}
+               "monitors": rc.choice([[], [], ["ema"], ["ca"], ["event"], ["trace", "ema"], ["v_pass"], ["v_ema", "v_ca"]]), "classifier": rc.random() < 0.3, "container": rc.random() < 0.5}
         nconn = {"serial": 1, "biclique": 2, "recurrent": 3}[kind]
         cfg["conns"] = [{"skind": rc.choice(["delta", "deltaplus", "exp", "dexp"]), "delay_k": rc.choice([None, None, 1, 3]), "bias": rc.random() < 0.5, "tau": rc.choice([2.0, 5.0])}
                         for _ in range(nconn)]
